@@ -176,6 +176,55 @@ func ruleRetainNotifications(c *chk.Ctx) {
 		})
 	}
 	c.Check(found, "RUN.retain", stop, "notifications are the retained members", each.Pos(), "members are retained exactly on the true edge of the notification predicate", "no append governed by the notification predicate in the queue walk: valid notifications received before the stop would be lost")
+	// every re-queued entry holds members of one original entry only: it is a one-element list, or
+	// a list accumulated inside a single invocation of the queue-walk callback. (Members of
+	// different inbound messages put into one entry would be dispatched as one batch, i.e.
+	// concurrently: a later notification could start before an earlier one has returned.)
+	arg := add.Common().Args[len(add.Common().Args)-1]
+	single := false
+	var walk func(v ssa.Value, depth int) bool
+	isCb := func(f *ssa.Function) bool {
+		for _, cb := range cbs {
+			if f == cb {
+				return true
+			}
+		}
+		return false
+	}
+	walk = func(v ssa.Value, depth int) bool {
+		if depth > 6 {
+			return false
+		}
+		v = ir.NormCell(v)
+		switch x := v.(type) {
+		case *ssa.Slice:
+			// slice literal: a fresh array of constant length 1
+			if al, ok := x.X.(*ssa.Alloc); ok {
+				if at, ok := al.Type().(*types.Pointer).Elem().Underlying().(*types.Array); ok && at.Len() == 1 {
+					return true
+				}
+			}
+			return false
+		case *ssa.Const:
+			return x.IsNil()
+		case *ssa.Call:
+			if b, ok := x.Call.Value.(*ssa.Builtin); ok && b.Name() == "append" {
+				// accumulated inside one callback invocation only
+				return isCb(x.Parent()) && walk(x.Call.Args[0], depth+1)
+			}
+			return false
+		case *ssa.Phi:
+			for _, e := range x.Edges {
+				if !walk(e, depth+1) {
+					return false
+				}
+			}
+			return isCb(x.Parent())
+		}
+		return false
+	}
+	single = walk(arg, 0)
+	c.Check(single, "RUN.retain", stop, "retained members are re-queued one original entry at a time", add.Pos(), "each re-queued entry is a one-element list (or is accumulated within one visit of the queue walk)", "a re-queued entry can hold notifications of different inbound messages: they would be dispatched as one batch (concurrently), so a later-arriving notification could start before an earlier one has completed")
 }
 
 // isNotificationPred: g is the jmessage predicate "request without id".
